@@ -4,3 +4,4 @@ CONSTANTS ArmMin = 3
           Thorough = TRUE
           Emit = TRUE
 INVARIANT Lemmas
+INVARIANT KneedleLemma
